@@ -10,6 +10,7 @@ import os
 import pickle
 
 from ..acc import Acc
+from .. import argforms as AF
 from . import c13
 
 ID = "C05"
@@ -124,11 +125,12 @@ def diff(a, b):
     return [x[:2] for x, y in zip(a, b) if x != y] or (["length"] if len(a) != len(b) else [])
 
 
-PATHS = ["dump_path", "dump_file", "asdict", "asdict64", "pickle2", "pickle3", "pickle4", "pickle5", "copy",
+PATHS = ["dump_path", "dump_file", "asdict", "asdict_views", "asdict64", "pickle2", "pickle3", "pickle4", "pickle5", "copy",
          "load_skip_none"]
 
 
 def roundtrip(tc, path, tmp):
+    import numpy as np
     import tskit
 
     if path == "dump_path":
@@ -144,6 +146,15 @@ def roundtrip(tc, path, tmp):
         return tskit.TableCollection.load(tmp, skip_tables=False, skip_reference_sequence=False)
     if path == "asdict":
         return tskit.TableCollection.fromdict(tc.asdict())
+    if path == "asdict_views":
+        # the same dictionary with every column as a strided / reversed / read-only view
+        def walk(x, k):
+            if isinstance(x, dict):
+                return {kk: walk(v, k + i) for i, (kk, v) in enumerate(sorted(x.items()))}
+            if isinstance(x, np.ndarray) and x.ndim == 1:
+                return AF.reform(x, k)[1]
+            return x
+        return tskit.TableCollection.fromdict(walk(tc.asdict(), 1))
     if path == "asdict64":
         return tskit.TableCollection.fromdict(tc.asdict(force_offset_64=True))
     if path.startswith("pickle"):
